@@ -396,7 +396,8 @@ def explore_send(F, f):
                 src = None
                 pl = lab["place"]
                 src = res_call_of({"k": "cp", "pl": {"l": pl["l"]}})
-                if src is not None and lab["variant"] in ("Err", "Break"):
+                if src is not None and lab["variant"] in ("Err", "Break") and src != pend:
+                    # (a later re-test of the same result, e.g. by drop elaboration, is not a new error)
                     stats["err_edges"] += 1
                     pend, enob, down = src, None, None
                 # result of downsize
@@ -407,6 +408,9 @@ def explore_send(F, f):
                 dsrc = [r for r in tr.roots_of_operand(lab["arg"]) if r.kind == "call" and r.block in downsize_blocks]
                 if dsrc:
                     down = lab["truth"] if lab["pred"] == "is_ok" else not lab["truth"]
+            elif lab["kind"] == "callbool" and lab.get("def_block") in downsize_blocks and pend is not None:
+                # downsize() returning a plain bool ("a retry makes sense")
+                down = lab["truth"]
             elif lab["kind"] == "val" and pend is not None:
                 # switch on the errno payload
                 names = [e.get("n") for e in lab["place"].get("p", []) if isinstance(e, dict) and "v" in e]
@@ -437,21 +441,28 @@ def explore_send(F, f):
     for st, path in returns:
         pend = st[1]
         rb = path[-1]
-        # find what was last stored into _0 on this path
-        last = None
+        # what does _0 hold at the end of this path?  (variants of Result values, followed through moves: an inlined
+        # helper returns through its own return slot first)
+        var = {}
         for b in path:
             for s_ in f.stmts(b):
-                if s_["s"] == "assign" and s_["lhs"]["l"] == 0 and not s_["lhs"].get("p"):
-                    last = ("agg", s_["rv"]) if s_["rv"]["r"] == "agg" else ("other", s_["rv"])
+                if s_["s"] != "assign" or s_["lhs"].get("p"):
+                    continue
+                l = s_["lhs"]["l"]
+                if s_["rv"]["r"] == "agg" and s_["rv"]["kind"].get("adt") == "std::result::Result":
+                    var[l] = s_["rv"]["kind"].get("variant")
+                elif s_["rv"]["r"] == "use" and op_local(s_["rv"]["a"][0]) in var:
+                    var[l] = var[op_local(s_["rv"]["a"][0])]
+                else:
+                    var.pop(l, None)
             t = f.term(b)
-            if t["t"] == "call" and t["dest"]["l"] == 0:
-                last = ("call", t)
-        ok = False
+            if t["t"] == "call" and not t["dest"].get("p"):
+                if "from_residual" in callee_name(t):
+                    var[t["dest"]["l"]] = "Err"
+                else:
+                    var.pop(t["dest"]["l"], None)
         # the caller must see an error: the pending one, or another one raised on the way out
-        if last and last[0] == "agg" and last[1]["kind"].get("variant") == "Err":
-            ok = True
-        elif last and last[0] == "call" and "from_residual" in callee_name(last[1]):
-            ok = True
+        ok = var.get(0) == "Err"
         if not ok:
             problems.setdefault(("SEND-PROP", "error-not-returned", fall[pend]), rb)
     return problems, stats, states, fall, pos, downsize_blocks
@@ -577,6 +588,8 @@ def rule_retry_shrink(ctx, cfg, F):
         for st in g.stmts(b):
             if st["s"] == "assign" and st["lhs"]["l"] == 0 and st["rv"]["r"] == "agg":
                 yield ("ret", st["rv"]["kind"].get("variant"))
+            if st["s"] == "assign" and st["lhs"]["l"] == 0 and st["rv"]["r"] == "use" and op_const(st["rv"]["a"][0]) in (0, 1) and g.local_ty(0) == "bool":
+                yield ("ret", "Ok" if op_const(st["rv"]["a"][0]) == 1 else "Err")
     for facts, rb, path in path_summaries(g, edge_fact, block_fact):
         rets = {x[1] for x in facts if x[0] == "ret"}
         gt = any(x[0] == "sent" and x[1] == ("gt",) and x[2] > 0 for x in facts)
